@@ -807,15 +807,16 @@ Definition ex_tt2 : tax_total :=
   mkTT [mkCT ex_code false [ex_rt2] (mkA 500 2) None (mkA 500 2)] (mkA 500 2) (mkA 500 2).
 
 Ltac wf_concrete :=
-  unfold wf_tt, wf_ct, wf_rt, distinct_codes, distinct_groups; vm_compute;
-  repeat match goal with
-         | |- _ /\ _ => split
-         | |- Forall _ _ => constructor
-         | |- True => exact I
-         | |- _ = _ => reflexivity
-         | |- _ -> _ => let H := fresh in intros H; try discriminate H; try (injection H as <-)
-         | |- forall _, _ => intro
-         end.
+  unfold wf_tt, wf_ct, wf_rt, distinct_codes, distinct_groups;
+  repeat (cbn;
+          match goal with
+          | |- _ /\ _ => split
+          | |- Forall _ _ => constructor
+          | |- True => exact I
+          | |- _ = _ => reflexivity
+          | |- _ -> _ => let H := fresh in intros H; try discriminate H; try (injection H as <-)
+          | |- forall _, _ => intro
+          end).
 
 Lemma ex_tt_wf : wf_tt 2 ex_tt. Proof. wf_concrete. Qed.
 Lemma ex_tt2_wf : wf_tt 2 ex_tt2. Proof. wf_concrete. Qed.
@@ -963,3 +964,192 @@ Lemma tt_calculate_idempotent_after_first cr c t :
   let t1 := tt_calculate cr c t in
   tt_calculate cr c (tt_calculate cr c t1) = tt_calculate cr c t1.
 Proof. intros t1. apply tt_calculate_idempotent_partial, tt_calculate_bases. Qed.
+
+(* without the hypothesis: base 1.005 at 50%, c = 2: first 0.50 (of 0.503), then 0.51 (of 1.01) *)
+Lemma tt_calculate_idempotent_refuted :
+  exists cr c t, tt_calculate cr c (tt_calculate cr c t) <> tt_calculate cr c t.
+Proof.
+  exists true, 2%nat,
+    (mkTT [mkCT ex_code false
+                [mkRT [] [] [] (Some (mkA 50 2)) None (mkA 1005 3) (mkA 0 3) (mkA 0 3)]
+                (mkA 0 2) None (mkA 0 2)] (mkA 0 2) (mkA 0 2)).
+  vm_compute. discriminate.
+Qed.
+
+(* ------------------------------------------------------------------------------------------ *)
+(* (f) payments                                                                                *)
+(* ------------------------------------------------------------------------------------------ *)
+Lemma match_precision_toQ a b : toQ (match_precision a b) == toQ a.
+Proof.
+  unfold match_precision, rescale_up. destruct (Nat.ltb (exp a) (exp b)) eqn:E; [|reflexivity].
+  apply Nat.ltb_lt in E. apply rescale_lossless. lia.
+Qed.
+
+Lemma match_precision_exp a b : (exp b <= exp (match_precision a b))%nat.
+Proof.
+  unfold match_precision, rescale_up. destruct (Nat.ltb (exp a) (exp b)) eqn:E.
+  - rewrite rescale_exp. lia.
+  - apply Nat.ltb_ge in E. exact E.
+Qed.
+
+Lemma acc_add_toQ t a : toQ (add (match_precision t a) a) == toQ t + toQ a.
+Proof. rewrite add_no_loss by apply match_precision_exp. rewrite match_precision_toQ. reflexivity. Qed.
+
+Lemma acc_sub_toQ t a : toQ (sub (match_precision t a) a) == toQ t - toQ a.
+Proof.
+  rewrite sub_add_negate. rewrite add_no_loss by (cbn [negate exp]; apply match_precision_exp).
+  rewrite match_precision_toQ, negate_toQ. reflexivity.
+Qed.
+
+Lemma zero_of_toQ c : toQ (zero_of c) == 0.
+Proof. unfold Qeq, toQ, zero_of. cbn [Qnum Qden val]. lia. Qed.
+
+(* one side of a payment line in the payment currency: absent = 0; None = no exchange rate *)
+Definition pl_side (rates : list xrate) (cur : Z) (c : nat) (l : pay_line) (x : option amount) : option amount :=
+  match x with
+  | None => Some (zero_of c)
+  | Some a => pl_amount rates cur c (pl_cur l) a
+  end.
+
+Lemma payment_line_total rates cur c l :
+  match pl_side rates cur c l (pl_debit l), pl_side rates cur c l (pl_credit l) with
+  | Some d, Some k => exists lt, pl_total true rates cur c l = Some lt /\ toQ lt == toQ d - toQ k
+  | _, _ => pl_total true rates cur c l = None
+  end.
+Proof.
+  unfold pl_total, pl_side.
+  destruct (pl_debit l) as [d0|].
+  - destruct (pl_amount rates cur c (pl_cur l) d0) as [d|].
+    + destruct (pl_credit l) as [k0|].
+      * destruct (pl_amount rates cur c (pl_cur l) k0) as [k|]; [|reflexivity].
+        eexists. split; [reflexivity|].
+        rewrite acc_sub_toQ, acc_add_toQ, zero_of_toQ. ring.
+      * eexists. split; [reflexivity|].
+        rewrite acc_add_toQ, !zero_of_toQ. ring.
+    + destruct (pl_credit l) as [k0|]; [|reflexivity].
+      destruct (pl_amount rates cur c (pl_cur l) k0); reflexivity.
+  - destruct (pl_credit l) as [k0|].
+    + destruct (pl_amount rates cur c (pl_cur l) k0) as [k|]; [|reflexivity].
+      eexists. split; [reflexivity|].
+      rewrite acc_sub_toQ. reflexivity.
+    + eexists. split; [reflexivity|]. rewrite zero_of_toQ. ring.
+Qed.
+
+(* shipped (MatchPrecision result discarded): debit 1.005, credit 0.001, c = 2 gives 1.01, not 1.004 *)
+Lemma payment_line_total_shipped_refuted :
+  exists rates cur c l d k lt,
+    pl_side rates cur c l (pl_debit l) = Some d /\ pl_side rates cur c l (pl_credit l) = Some k /\
+    pl_total false rates cur c l = Some lt /\ ~ toQ lt == toQ d - toQ k.
+Proof.
+  exists [], 0, 2%nat, (mkPL None (Some (mkA 1005 3)) (Some (mkA 1 3)) None).
+  eexists. eexists. eexists. split; [reflexivity|]. split; [reflexivity|]. split; [reflexivity|].
+  vm_compute. discriminate.
+Qed.
+
+Definition qsum (l : list amount) : Q := fold_right (fun a q => (toQ a + q)%Q) 0%Q l.
+Definition qtot (o : option amount) : Q := match o with Some t => toQ t | None => 0%Q end.
+
+Lemma pay_calc_aux_total cr rates cur c subunits ls : forall acc total tt out,
+  pay_calc_aux true cr rates cur c subunits ls acc total tt = Some out ->
+  exists lts,
+    Forall2 (fun l lt => pl_total true rates cur c l = Some lt) ls lts /\
+    po_lines out = rev acc ++ lts /\
+    qtot (po_total out) == qtot total + qsum lts /\
+    (po_total out = None -> total = None /\ ls = []).
+Proof.
+  induction ls as [|l rest IH]; intros acc total tt out H; cbn [pay_calc_aux] in H.
+  - injection H as <-. exists []. cbn [po_lines po_total qsum fold_right]. repeat split.
+    + constructor.
+    + rewrite app_nil_r. reflexivity.
+    + ring.
+    + assumption.
+  - destruct (pl_total true rates cur c l) as [lt|] eqn:E; [|discriminate].
+    apply IH in H. destruct H as (lts & F & L & T & N).
+    exists (lt :: lts). repeat split.
+    + constructor; assumption.
+    + rewrite L. cbn [rev]. rewrite <- app_assoc. reflexivity.
+    + rewrite T. cbn [qtot qsum fold_right]. fold (qsum lts).
+      destruct total as [t0|]; cbn [qtot].
+      * rewrite acc_add_toQ. ring.
+      * ring.
+    + apply N in H. destruct H as [H _]. discriminate.
+    + apply N in H. destruct H as [H _]. discriminate.
+Qed.
+
+Lemma payment_total_is_sum cr rates cur c subunits ls out :
+  pay_calc true cr rates cur c subunits ls = Some out ->
+  Forall2 (fun l lt => pl_total true rates cur c l = Some lt) ls (po_lines out) /\
+  match po_total out with
+  | Some t => toQ t == qsum (po_lines out)
+  | None => ls = []
+  end.
+Proof.
+  unfold pay_calc. intros H. apply pay_calc_aux_total in H.
+  destruct H as (lts & F & L & T & N). cbn [rev app] in L. rewrite L. split; [exact F|].
+  destruct (po_total out) as [t|].
+  - cbn [qtot] in T. rewrite T. ring.
+  - apply N. reflexivity.
+Qed.
+
+(* the calculation is defined exactly when every line total is *)
+Lemma pay_calc_aux_defined keep cr rates cur c subunits ls : forall acc total tt,
+  Forall (fun l => pl_total keep rates cur c l <> None) ls ->
+  pay_calc_aux keep cr rates cur c subunits ls acc total tt <> None.
+Proof.
+  induction ls as [|l rest IH]; intros acc total tt F; cbn [pay_calc_aux]; [discriminate|].
+  inversion F as [|x y Hl Fr]; subst.
+  destruct (pl_total keep rates cur c l) as [lt|]; [|congruence].
+  apply IH, Fr.
+Qed.
+
+Lemma pay_calc_defined keep cr rates cur c subunits ls :
+  Forall (fun l => pl_total keep rates cur c l <> None) ls ->
+  pay_calc keep cr rates cur c subunits ls <> None.
+Proof. apply pay_calc_aux_defined. Qed.
+
+(* the recalculated document summary a line contributes *)
+Definition line_summary (cr : bool) (c : nat) (subunits : Z -> nat) (l : pay_line) : option tax_total :=
+  match pl_doc l with
+  | Some (dcur, Some dt) =>
+    Some (tt_calculate cr (match dcur with Some k => subunits k | None => c end) dt)
+  | _ => None
+  end.
+
+Fixpoint line_summaries (cr : bool) (c : nat) (subunits : Z -> nat) (ls : list pay_line) : list tax_total :=
+  match ls with
+  | [] => []
+  | l :: rest =>
+    match line_summary cr c subunits l with
+    | Some s => s :: line_summaries cr c subunits rest
+    | None => line_summaries cr c subunits rest
+    end
+  end.
+
+Definition tax_step (o : option tax_total) (s : tax_total) : option tax_total :=
+  Some (match o with None => s | Some t0 => tt_merge t0 s end).
+
+Lemma pay_calc_aux_tax keep cr rates cur c subunits ls : forall acc total tt out,
+  pay_calc_aux keep cr rates cur c subunits ls acc total tt = Some out ->
+  po_tax out = fold_left tax_step (line_summaries cr c subunits ls) tt.
+Proof.
+  induction ls as [|l rest IH]; intros acc total tt out H; cbn [pay_calc_aux line_summaries] in *.
+  - injection H as <-. reflexivity.
+  - destruct (pl_total keep rates cur c l) as [lt|]; [|discriminate].
+    apply IH in H. rewrite H. unfold line_summary.
+    destruct (pl_doc l) as [[dcur [dt|]]|]; reflexivity.
+Qed.
+
+Lemma fold_tax_step ss : forall d, fold_left tax_step ss (Some d) = Some (fold_left tt_merge ss d).
+Proof. induction ss as [|s ss IH]; intros d; cbn [fold_left]; [reflexivity|]. apply IH. Qed.
+
+Lemma payment_tax_is_merge_of_lines keep cr rates cur c subunits ls out :
+  pay_calc keep cr rates cur c subunits ls = Some out ->
+  po_tax out = match line_summaries cr c subunits ls with
+               | [] => None
+               | d :: ds => Some (fold_left tt_merge ds d)
+               end.
+Proof.
+  unfold pay_calc. intros H. apply pay_calc_aux_tax in H. rewrite H.
+  destruct (line_summaries cr c subunits ls) as [|d ds]; [reflexivity|].
+  cbn [fold_left]. apply fold_tax_step.
+Qed.
